@@ -74,25 +74,31 @@ def run(cmd, cwd=None, env=None, timeout=1200, input=None):
 
 # ---------------------------------------------------------------- Go harness
 
+def _repo_tag():
+    return '' if REPO == '/repo' else '-' + hashlib.sha1(REPO.encode()).hexdigest()[:8]
+
+
 def go_prepare():
-    """(Re)create harness/go.mod and go.sum from /repo's current files."""
-    with Lock('gomod'):
-        tmpl = open(os.path.join(HARNESS, 'go.mod.tmpl')).read().replace('/repo', REPO)
-        gm = os.path.join(HARNESS, 'go.mod')
-        if not os.path.exists(gm) or not open(gm).read().startswith(tmpl.strip().split('\n')[0]):
-            open(gm, 'w').write(tmpl)
-        elif ('=> ' + REPO + '\n') not in open(gm).read():
-            open(gm, 'w').write(tmpl)
-        shutil.copyfile(os.path.join(REPO, 'go.sum'), os.path.join(HARNESS, 'go.sum'))
+    """(Re)create the harness go.mod/go.sum (kept outside the source tree, one per
+    VERIF_REPO) from the template and /repo's current go.sum."""
+    d = os.path.join(BUILD, 'gomod' + _repo_tag())
+    os.makedirs(d, exist_ok=True)
+    gm = os.path.join(d, 'go.mod')
+    tmpl = open(os.path.join(HARNESS, 'go.mod.tmpl')).read().replace('=> /repo', '=> ' + REPO)
+    if not os.path.exists(gm) or ('=> ' + REPO + '\n') not in open(gm).read():
+        open(gm, 'w').write(tmpl)
+    shutil.copyfile(os.path.join(REPO, 'go.sum'), os.path.join(d, 'go.sum'))
+    return gm
 
 
 def go_build(cmd, tags='verif'):
-    """Build harness command `cmd` against the current /repo tree."""
-    go_prepare()
-    out = os.path.join(BUILD, 'bin', cmd)
+    """Build harness command `cmd` against the current working tree of REPO
+    (default /repo; override with env VERIF_REPO).  Returns (ok, log, binary)."""
+    out = os.path.join(BUILD, 'bin' + _repo_tag(), cmd)
     os.makedirs(os.path.dirname(out), exist_ok=True)
-    with Lock('gobuild'):
-        rc, log = run([go_bin(), 'build', '-tags', tags, '-o', out, './cmd/' + cmd],
+    with Lock('gobuild' + _repo_tag()):
+        gm = go_prepare()
+        rc, log = run([go_bin(), 'build', '-modfile=' + gm, '-tags', tags, '-o', out, './cmd/' + cmd],
                       cwd=HARNESS, env=go_env(), timeout=1500)
     return rc == 0, log, out
 
